@@ -714,6 +714,8 @@ def main(tier):
     import c04
     import c07
     rep.attempt(c07.check_hist_keep, rep, llir.library('default'))   # matches against history that was not kept decode to other bytes
+    import c11
+    rep.attempt(c11.check_adler_bam1, rep, llir.library('default'))     # the zlib trailer: conversion of the stored checksum for every value
     rep.attempt(c04.check_adler, rep)          # zlib trailers: "accepting the trailer" rests on the Adler-32 kernels' constants and overflow schedule
     for c in CONFIGS:
         lay = hufftables_layout(c)
